@@ -180,6 +180,7 @@ Prods(h) ==
            P(1, "p_ctor_spread", <<OPEN("VARIANT_REF"), T("V"), T("("), OPEN("VARIANT_REF_FIELD"), NT("PAT"), T(","), CLOSE,
                                    OPEN("VARIANT_REF_FIELD"), OPEN("PATTERN_SPREAD"), T(".."), CLOSE, CLOSE, T(")"), CLOSE>>),
            P(1, "p_qualified", <<OPEN("VARIANT_REF"), T("m"), T("."), T("V"), T("("), OPEN("VARIANT_REF_FIELD"), NT("PAT"), CLOSE, T(")"), CLOSE>>),
+           P(1, "p_qualified0", <<OPEN("VARIANT_REF"), T("m"), T("."), T("V"), CLOSE>>),
            P(1, "p_tuple", <<OPEN("PATTERN_TUPLE"), T("#"), T("("), NT("PAT"), T(","), NT("PAT"), T(")"), CLOSE>>),
            P(1, "p_list", <<OPEN("PATTERN_LIST"), T("["), NT("PAT"), T(","), NT("PAT"), T("]"), CLOSE>>),
            P(1, "p_list0", <<OPEN("PATTERN_LIST"), T("["), T("]"), CLOSE>>),
@@ -190,9 +191,16 @@ Prods(h) ==
            P(1, "p_as", <<OPEN("AS_PATTERN"), NT("PATN"), T("as"), T("n"), CLOSE>>),
            P(1, "p_as_var", <<OPEN("AS_PATTERN"), T("x"), T("as"), T("n"), CLOSE>>) }
     [] h.s = "PATN" ->
+         \* `as` may follow every structured pattern form (one production per form, as for PAT)
          { P(0, "pn_tuple", <<OPEN("PATTERN_TUPLE"), T("#"), T("("), NT("PAT"), T(","), NT("PAT"), T(")"), CLOSE>>),
-           P(1, "pn_ctor", <<OPEN("VARIANT_REF"), T("V"), T("("), OPEN("VARIANT_REF_FIELD"), NT("PAT"), CLOSE, T(")"), CLOSE>>),
-           P(1, "pn_list", <<OPEN("PATTERN_LIST"), T("["), NT("PAT"), T("]"), CLOSE>>) }
+           P(0, "pn_ctor", <<OPEN("VARIANT_REF"), T("V"), T("("), OPEN("VARIANT_REF_FIELD"), NT("PAT"), CLOSE, T(")"), CLOSE>>),
+           P(0, "pn_ctor0", <<OPEN("VARIANT_REF"), T("V"), CLOSE>>),
+           P(0, "pn_ctor_label", <<OPEN("VARIANT_REF"), T("V"), T("("), OPEN("VARIANT_REF_FIELD"), T("l"), T(":"), NT("PAT"), CLOSE, T(")"), CLOSE>>),
+           P(0, "pn_qualified", <<OPEN("VARIANT_REF"), T("m"), T("."), T("V"), T("("), OPEN("VARIANT_REF_FIELD"), NT("PAT"), CLOSE, T(")"), CLOSE>>),
+           P(0, "pn_qualified0", <<OPEN("VARIANT_REF"), T("m"), T("."), T("V"), CLOSE>>),
+           P(0, "pn_list", <<OPEN("PATTERN_LIST"), T("["), NT("PAT"), T("]"), CLOSE>>),
+           P(0, "pn_list_rest", <<OPEN("PATTERN_LIST"), T("["), NT("PAT"), T(","), OPEN("PATTERN_SPREAD"), T(".."), T("r"), CLOSE, T("]"), CLOSE>>),
+           P(0, "pn_int", <<T("1")>>), P(0, "pn_string", <<T("\"s\"")>>) }
     [] OTHER -> {}
 
 Pick(S) == IF Sim /\ S # {} THEN {RandomElement(S)} ELSE S
